@@ -748,6 +748,10 @@ class Intra:
             return ("P", e.id)
         if isinstance(e, ast.UnaryOp) and isinstance(e.op, ast.Not):
             v = self.eval_flag(e.operand, st)
+            if v[0] == "P":
+                return ("N", v[1])      # the negation of the caller's own flag
+            if v[0] == "N":
+                return ("P", v[1])
             return {"T": ("F",), "F": ("T",)}.get(v[0], ("U",))
         return ("U",)
 
@@ -1422,7 +1426,7 @@ class Intra:
             if m in DECLARED_VIEWS:
                 virt = [k for k in e.keywords if k.arg == "virtual"]
                 fv = self.eval_flag(virt[0].value, st) if virt else ("T",)
-                if fv[0] in ("T", "U"):
+                if fv[0] in ("T", "U", "N"):
                     out = join(out, rv.part(2))
                 elif fv[0] == "P":
                     out = join(out, Val(SAFE, frozenset([fv[1]]), 2) if rv.lvl == ORIG else rv.part(2))
@@ -1542,6 +1546,9 @@ class Intra:
                         fv = self.flag_at_call(q, fi, presets, explicit, e, st)
                         if fv[0] == "T":
                             self.event("call", e, v, note=f"callee {callee} modifies iff {q}; called with {q}=True")
+                        elif fv[0] == "N":
+                            self.event("call", e, v, note=f"callee {callee} modifies iff {q}; called with "
+                                                          f"{q}=not {fv[1]}")
                         elif fv[0] == "P":
                             if v.lvl == ORIG:
                                 self.delegations.append((e.lineno, callee, q))
@@ -1593,7 +1600,7 @@ class Intra:
         if r.lvl == SAFE:
             for q in sorted(r.flags):
                 fv = self.flag_at_call(q, fi, presets, explicit, e, st)
-                if fv[0] in ("T", "U"):
+                if fv[0] in ("T", "U", "N"):
                     out = join(out, self._ret_map(v, r))
                 elif fv[0] == "P":
                     if v.lvl == ORIG:
@@ -1680,9 +1687,9 @@ def analyse(root):
     # declared leaves that exist in the source: derive them too (O4 consistency)
     leaves = []
     for name in sorted(DECLARED_MODIFIES):
-        for fi, _ in prog.candidates_any(name):
+        for fi, presets in prog.candidates_any(name):
             if fi.recv_param and fi.kind == "method":
-                leaves.append(fi)
+                leaves.append((name, fi, presets))
                 roots.append((fi, fi.recv_param))
     sys.setrecursionlimit(max(sys.getrecursionlimit(), 20000))
     rounds = az.solve(roots)
@@ -1760,25 +1767,29 @@ def frame_obligations(root):
                 cz[status] += 1
     # O4: declared leaf summaries vs derived ones
     seen = set()
-    for fi in leaves:
-        if fi.fid in seen:
+    for name, fi, presets in leaves:
+        if (name, fi.fid) in seen:
             continue
-        seen.add(fi.fid)
+        seen.add((name, fi.fid))
         it = az.results.get((fi.fid, fi.recv_param))
         if it is None:
             continue
-        derived = Summary()
+        true_presets = {k for k, v in presets.items() if isinstance(v, ast.Constant) and v.value is True}
+        ok, how = False, "pure-on-receiver"
         for e in it.events:
             if e.certain and e.lvl == ORIG:
-                derived.lvl = ORIG
-        ok = derived.lvl == ORIG
-        obs.append(ObResult(id=f"{fi.mod.rel}::{fi.qual}::leaf-summary-consistent", kind="frame",
-                            status="discharged" if ok else "unknown", backend="ast", solver_s=0.0,
+                ok, how = True, "modifies-receiver"
+            elif e.certain and e.lvl == SAFE and e.flags and e.flags <= true_presets and not ok:
+                ok, how = True, "modifies-receiver-iff-" + "|".join(sorted(e.flags)) + " (alias presets it True)"
+        cls_name = fi.qual.split(".")[0] if "." in fi.qual else ""
+        disp = fi.qual if name == fi.name else f"{cls_name}.{name}->{fi.qual}"
+        obs.append(ObResult(id=f"{fi.mod.rel}::{disp}::leaf-summary-consistent", kind="frame",
+                            status="discharged" if ok else "failed", backend="ast", solver_s=0.0,
                             function=f"{fi.mod.rel}::{fi.qual}", line=fi.node.lineno, engine="E4",
-                            detail=json.dumps(dict(declared="modifies-receiver",
-                                                   derived="modifies-receiver" if ok else "pure-on-receiver",
-                                                   note=None if ok else "declared summary is used (upper bound); the "
-                                                   "analysis does not see the write"))))
+                            model=None if ok else dict(file=fi.mod.rel, line=fi.node.lineno,
+                                                       source=fi.mod.line(fi.node.lineno),
+                                                       note="declared leaf mutator: no write to its receiver found"),
+                            detail=json.dumps(dict(declared=f"{name}: modifies-receiver", derived=how))))
     cdetail = dict(all=census, anchored_files=census_anch, fixpoint_rounds=rounds,
                    summaries_derived=len(az.summ), call_sites_checked=ncalls,
                    assumed_pure=sorted(all_assumed), wall_s=round(time.time() - t0, 2))
